@@ -209,6 +209,18 @@ pub fn gen(seed: u64, count: usize, tier: &str, params: &Params) -> Vec<Value> {
             match density { 0 => 1, 1 => 0, 2 => (rng.below(4) != 0) as i64, 3 => (rng.below(4) == 0) as i64, _ => rng.below(2) as i64 }
         };
         match *rng.pick(&kinds) {
+            "remove_nan" if rng.chance(1, 6) => {
+                // long runs of missing / present values (block-wise scans have their corner cases at run lengths like 16 or 32)
+                let mut lane: Vec<i64> = Vec::new();
+                let segs = rng.range(1, 4);
+                let mut present = rng.chance(1, 2);
+                for _ in 0..segs { let len = if present { rng.range(1, 3) } else { *rng.pick(&[15i64, 16, 17, 31, 32, 33, 5]) }; for _ in 0..len { lane.push(present as i64); } present = !present; }
+                if rng.chance(1, 2) { lane.push(1); }
+                let stride = *rng.pick(&[1i64, 1, 2, -1, -2]);
+                let cells = lane.len() as i64 * stride.abs() + 6;
+                let ty = if cells > 120 && (ty == "opt_u8" || ty == "opt_i8") { "opt_i16" } else { ty };
+                cases.push(json!({"ev": "remove_nan", "ty": ty, "lane": lane, "stride": stride, "off": rng.below(3)}));
+            }
             "remove_nan" => {
                 let n = rng.range(0, maxlen);
                 let lane: Vec<i64> = (0..n).map(|_| miss(&mut rng)).collect();
